@@ -275,6 +275,9 @@ impl Shared {
             Entry::Bytes => {
                 if cb == Cb::Accept || cb == Cb::RejectPersisted {
                     out.cb_args.last().cloned()
+                } else if cb == Cb::RejectOnce && out.cb_args.len() > 1 {
+                    // the second invocation was answered with Ok: that is what the caller persisted
+                    out.cb_args.last().cloned()
                 } else {
                     None
                 }
